@@ -229,6 +229,45 @@ func guardedNonNegative(p *core.Prog, at ssa.Instruction, v ssa.Value) bool {
 	if n, ok := core.ConstInt(v); ok {
 		return n >= 0
 	}
+	// the result of a module helper that validates before it returns: every return
+	// of the helper hands back, at that position, a value that is non-negative there
+	{
+		idx := 0
+		var call *ssa.Call
+		switch x := v.(type) {
+		case *ssa.Extract:
+			call, _ = x.Tuple.(*ssa.Call)
+			idx = x.Index
+		case *ssa.Call:
+			call = x
+		}
+		if call != nil {
+			if callee := call.Call.StaticCallee(); callee != nil && callee.Blocks != nil && p.InModule(callee) && callee != at.Parent() {
+				all, any := true, false
+				core.EachInstr(callee, func(ins ssa.Instruction) {
+					ret, ok := ins.(*ssa.Return)
+					if !ok || idx >= len(ret.Results) {
+						return
+					}
+					// returns that carry a non-nil error do not deliver a value
+					for _, rv := range ret.Results {
+						if core.IsErrorType(rv.Type()) && !core.IsNilConst(rv) {
+							if _, isPhi := rv.(*ssa.Phi); !isPhi {
+								return
+							}
+						}
+					}
+					any = true
+					if !guardedNonNegative(p, ret, ret.Results[idx]) {
+						all = false
+					}
+				})
+				if all && any {
+					return true
+				}
+			}
+		}
+	}
 	fn := at.Parent()
 	for _, b := range fn.Blocks {
 		iff, ok := b.Instrs[len(b.Instrs)-1].(*ssa.If)
